@@ -269,7 +269,8 @@ Fixpoint wf_type (t : cqltype) : bool :=
   end.
 
 (* values the driver can hand back as the documented Python objects: timestamps inside datetime's range
-   (years 1..9999), tuple values with at least one item (an empty tuple is written as b'' = null) *)
+   (years 1..9999), tuple values with at least one item (an empty tuple is written as b'' = null), vector
+   elements are not null (Cassandra has no null vector elements; the driver raises for most element types) *)
 Fixpoint py_repr (t : cqltype) (v : value) {struct t} : bool :=
   match v with
   | VNull => true
@@ -277,7 +278,8 @@ Fixpoint py_repr (t : cqltype) (v : value) {struct t} : bool :=
     match t with
     | TScalar STimestamp => match v with VInt ms => (TS_MIN <=? ms) && (ms <=? TS_MAX) | _ => true end
     | TScalar _ => true
-    | TList t' | TSet t' | TVector t' _ => match v with VSeq vs => forallb (py_repr t') vs | _ => true end
+    | TList t' | TSet t' => match v with VSeq vs => forallb (py_repr t') vs | _ => true end
+    | TVector t' _ => match v with VSeq vs => forallb (fun x => negb (is_null x) && py_repr t' x) vs | _ => true end
     | TMap k x => match v with VMap kvs => forallb (fun kv => py_repr k (fst kv) && py_repr x (snd kv)) kvs | _ => true end
     | TTuple ts | TUdt ts =>
       match v with
